@@ -1,4 +1,4 @@
-import AnyDB.Lemmas.RegionStep
+import AnyDB.Lemmas.RegionErrors
 import AnyDB.Props.C02Run
 
 /-!
@@ -27,10 +27,15 @@ refusals, every slot shows exactly the reference's entry — same name, same len
 file — and slots the reference does not have are absent.
 `C01_isolated`: in the reference a request changes no entry but the one it names (so neither does the database).
 
+`C01_history_partial` weakens the hypothesis to what a caller can observe: no request panics and none answers
+`RegionSizeOverflow` (a region beyond 2^63 bytes).  Under the invariant every other answer IS a success or an API refusal:
+the internal error answers `HoleTooSmall`, `OverlappingCopyRanges`, `RegionIndexMismatch`, `InvariantViolation` cannot
+occur (`Lemmas/RegionErrors.lean`: the best-fitting hole is large enough, the copy ranges are apart because the
+reservation and the region are apart, the start map answers with the region itself, reservations are positive).
+
 What is missing for the full statement: `reopen` after flush (needs the invariant tying the metadata file to the slots;
-validated by the correspondence and by C05's crash engine), and the unreachability of the internal error answers
-(`HoleTooSmall`, `OverlappingCopyRanges`, `RegionIndexMismatch`, `InvariantViolation`; `RegionSizeOverflow` is
-reachable only beyond 2^63 bytes) which the hypothesis `NormalRun` excludes — the lock-step run has never seen one.
+validated by the correspondence and by C05's crash engine), and panic-freedom itself (the `write_to_mmap` bound needs
+"every extent lies inside the file", not proved here; the lock-step run has never seen a panic on the fixed tree).
 -/
 namespace AnyDB.C01r
 open AnyDB Conc Db C02r Mem
@@ -88,6 +93,28 @@ theorem C01_run_partial (ops : List Op) (hr : NoReopen ops) (hn : NormalRun Db.i
 /-- … and the model state keeps the invariant (extents disjoint, contents inside reservation and file) -/
 theorem C01_run_inv (ops : List Op) (hr : NoReopen ops) (hn : NormalRun Db.init ops) : RInv (run Db.init ops) :=
   (rel_run Db.init [] ops rel_init.1 rel_init.2 hr hn).2
+
+
+/-- no request of the history panics or answers `RegionSizeOverflow` -/
+def FineRun (s : Db) : List Op → Prop
+  | [] => True
+  | op :: t => Fine (step s op).2 ∧ FineRun (step s op).1 t
+
+theorem normalRun_of_fine (s : Db) (r : Ref) (ops : List Op) (hrel : Rel s r) (hinv : RInv s) (hr : NoReopen ops) (hf : FineRun s ops) :
+    NormalRun s ops := by
+  induction ops generalizing s r with
+  | nil => trivial
+  | cons op t ih =>
+    have hn := normal_of_fine s op hinv hf.1
+    obtain ⟨h1, h2⟩ := rel_step s r op hrel hinv (hr op (List.mem_cons_self ..)) hn
+    exact ⟨hn, ih _ _ h1 h2 (fun o ho => hr o (List.mem_cons_of_mem _ ho)) hf.2⟩
+
+/-- C01 for every history without `reopen` in which no request panics or answers `RegionSizeOverflow`:
+the database shows exactly the reference byte vectors, and no internal error answer occurs on the way -/
+theorem C01_history_partial (ops : List Op) (hr : NoReopen ops) (hf : FineRun Db.init ops) :
+    view (run Db.init ops) = (refRun ops).map (Option.map liftE) ∧ NormalRun Db.init ops ∧ RInv (run Db.init ops) := by
+  have hn := normalRun_of_fine Db.init [] ops rel_init.1 rel_init.2 hr hf
+  exact ⟨C01_run_partial ops hr hn, hn, C01_run_inv ops hr hn⟩
 
 /-- isolation in the reference: a request that names region `id` changes no other entry -/
 theorem refOn_other (r : Ref) (id : RegionId) (f) (i j : Nat) (h : refFind r id = some i) (hj : j ≠ i) :
